@@ -30,8 +30,8 @@ ASSUMPTIONS = [
     "group-wise form is run with dataiter.USE_NUMBA = False (C08 compares the accelerated implementation with this one)",
 ]
 BOUND = {
-    "quick": "size ladder: periodic vectors / two-group frames of 17 and 130 elements; vector form: length 0..4 over 4-5 value alphabets per kind; group-wise: 1..3 rows x groups {1,2}^n x same alphabets; all drop_na in {default,True,False}, ddof {0,1}, index -3..3, q {0,.25,.5,1}",
-    "thorough": "vector form: length 0..5; group-wise: 1..4 rows x groups {1,2}^n; same argument menus",
+    "quick": "size ladder: periodic vectors / two-group frames of 17 and 130 elements; vector form: length 0..4 over 4-5 value alphabets per kind; group-wise: 1..3 rows x groups {1,2}^n x same alphabets; all drop_na in {default,True,False}, ddof {0,1}, index -3..3, q {0,.25,.5,1}; an infinities family (sum, mean, min, max, count, count_unique, first, last over {NA, 1, +inf, -inf}); the type of the missing value returned when nothing is left; array forms and provenances of the vector / group shards",
+    "thorough": "vector form: length 0..5; group-wise: 1..4 rows x groups {1,2}^n; same argument menus; plus the additions listed for the quick tier",
 }
 TIME_CAP = {"quick": 300, "thorough": 3000}
 
